@@ -5,7 +5,7 @@ CONSTANTS
   MaxUrl = 3
   ReuseOnLookup = FALSE
   FabricatedNorm = FALSE
-  EmptyParam = TRUE
+  EmptyParam = FALSE
   WildHostCheck = TRUE
   KF_Shadow = FALSE
   Source = "all"
